@@ -167,10 +167,22 @@ class ObjectDomain(LazyGenerators, EffectDomain):
             if len(found) == 1 and found[0].value is not None:
                 filled = [s_ for s_ in c.node.body if isinstance(s_, ast.Assign) and len(s_.targets) == 1 and isinstance(s_.targets[0], ast.Subscript)
                           and isinstance(s_.targets[0].value, ast.Name) and s_.targets[0].value.id == name]
-                if filled and isinstance(found[0].value, ast.Dict) and all(isinstance(s_.targets[0].slice, ast.Constant) for s_ in filled):
-                    # a table declared in the class body and filled there entry by entry: table = {}; table[k] = v; ...
-                    keys = list(found[0].value.keys) + [s_.targets[0].slice for s_ in filled]
-                    values = list(found[0].value.values) + [s_.value for s_ in filled]
+                updates = [s_.value for s_ in c.node.body if isinstance(s_, ast.Expr) and isinstance(s_.value, ast.Call) and isinstance(s_.value.func, ast.Attribute) and s_.value.func.attr == "update"
+                           and isinstance(s_.value.func.value, ast.Name) and s_.value.func.value.id == name]
+                plain_updates = all(all(k.arg is not None for k in u.keywords) and (not u.args or (len(u.args) == 1 and isinstance(u.args[0], ast.Dict) and all(k_ is not None for k_ in u.args[0].keys)))
+                                    for u in updates)
+                if (filled or updates) and isinstance(found[0].value, ast.Dict) and all(isinstance(s_.targets[0].slice, ast.Constant) for s_ in filled) and plain_updates:
+                    # a table declared in the class body and filled there: table = {}; table[k] = v; table.update(k=v, ...); ...
+                    entries = [(s_.lineno, [(s_.targets[0].slice, s_.value)]) for s_ in filled]
+                    for u in updates:
+                        pairs = list(zip(u.args[0].keys, u.args[0].values)) if u.args else []
+                        pairs += [(ast.copy_location(ast.Constant(value=k.arg), u), k.value) for k in u.keywords]
+                        entries.append((u.lineno, pairs))
+                    keys, values = list(found[0].value.keys), list(found[0].value.values)
+                    for _, pairs in sorted(entries, key=lambda x: x[0]):
+                        for k_, v_ in pairs:
+                            keys.append(k_)
+                            values.append(v_)
                     return c, ast.copy_location(ast.Dict(keys=keys, values=values), found[0].value)
                 return c, found[0].value
             if found:
@@ -2100,6 +2112,12 @@ class ObjectDomain(LazyGenerators, EffectDomain):
         if d == "object" and not call.args and not call.keywords and not st.has(fr.local("object")):
             n = st.get("ev.inst", 0)
             return [val(("sym", f"<object #{n}>"), st.set("ev.inst", n + 1))]   # a fresh object: equal and identical to itself only
+        if d == "super" and len(call.args) == 2 and not call.keywords and isinstance(call.args[0], ast.Name):
+            # super(Class, obj): lookups continue after Class in the MRO of obj
+            owner = self._class_of_expr(call.args[0], fr)
+            got = interp.eval(call.args[1], st, fr)
+            if owner is not None and got and all(r.kind == "exc" or is_inst(r.value) or r.value == ("self",) for r in got):
+                return [r if r.kind == "exc" else val(("super", owner, r.value if is_inst(r.value) else None), r.state) for r in got]
         if d == "super" and not call.args and not call.keywords and getattr(fr.func, "_class", None) is not None and hasattr(fr.func, "_module"):
             owner = self.classes.get(fr.func._module.name, fr.func._class.name)
             if owner is not None:
